@@ -207,3 +207,255 @@ Section Collect.
         right. left. split; [exact Hn|]. split; [left; exact EL | exists i; reflexivity].
   Qed.
 End Collect.
+
+(* ---- the whole loop, and the clauses -------------------------------------------------------------- *)
+Lemma py_sorted_str_In l x : In x (py_sorted_str l) <-> In x l.
+Proof.
+  assert (HI : forall y r, In x (insert_str y r) <-> x = y \/ In x r).
+  { intros y r. induction r as [|z r IH]; cbn; [intuition|].
+    destruct (str_ltb z y); cbn; [rewrite IH|]; intuition. }
+  induction l as [|y r IH]; cbn; [reflexivity|]. rewrite HI, IH. intuition.
+Qed.
+
+Lemma declared_keys (pm : pmap) k : In k (dict_keys (declared_attributes pm)) ->
+  (k = XMLNS_ /\ exists n, n <> [] /\ In (n, []) pm)
+  \/ (exists p', k = XMLNS_ ++ [COLON] ++ removelast p' /\ ~ In (removelast p') global_prefixes).
+Proof.
+  unfold declared_attributes, dict_keys. rewrite map_app, in_app_iff. intros [H|H].
+  - left. destruct (dict_get [] (dict_inverse pm)) as [n|] eqn:E; [|destruct H].
+    destruct (null n) eqn:EN; [destruct H|]. destruct H as [<-|[]]. split; [reflexivity|].
+    exists n. split; [intros ->; discriminate | apply dict_inverse_get_inv; exact E].
+  - right. rewrite map_map in H. apply in_map_iff in H. destruct H as [p' [<- H]]. cbn [fst].
+    apply (proj1 (py_sorted_str_In _ _)) in H. apply filter_In in H. destruct H as [_ H].
+    exists p'. split; [reflexivity|]. apply py_in_str_nIn. destruct (py_in_str _ _); [discriminate | reflexivity].
+Qed.
+
+Section Clauses.
+  Variables (caller : caller_map) (data : dict str).
+  Hypothesis NZ : normalized caller data.
+  Hypothesis GUARD : no_generated_like caller = true.
+  Hypothesis KD : caller_keys_distinct caller.
+
+  Lemma loop_ok U : NoDup U -> (N.of_nat (length U) < nsd_bound)%N ->
+    forall nss pm, Inv data pm -> incl (dict_keys pm) U -> incl nss U ->
+    exists pm', collect_loop data pm nss = Ok pm' /\ Inv data pm'
+                /\ (forall x, In x nss -> In x (dict_keys pm'))
+                /\ (forall x, In x (dict_keys pm) -> In x (dict_keys pm')).
+  Proof.
+    intros NDU HB. induction nss as [|n r IH]; cbn [collect_loop]; intros pm HI HK HN.
+    - exists pm. split; [reflexivity|]. split; [exact HI|]. split; [intros x []|auto].
+    - assert (HL : (N.of_nat (length pm) < nsd_bound)%N).
+      { destruct HI as [K1 _]. pose proof (NoDup_incl_length K1 HK) as H. unfold dict_keys in H.
+        rewrite map_length in H. lia. }
+      destruct (step_ok caller data NZ GUARD pm n HI HL) as [pm1 [E [HI1 [Hn [K1 K2]]]]].
+      rewrite E. cbn [bind].
+      destruct (IH pm1 HI1) as [pm' [E' [HI' [C1 C2]]]].
+      + intros x Hx. destruct (K2 _ Hx) as [->|Hx']; [apply HN; left; reflexivity | apply HK; exact Hx'].
+      + intros x Hx. apply HN. right. exact Hx.
+      + exists pm'. split; [exact E'|]. split; [exact HI'|]. split.
+        * intros x [<-|Hx]; [apply C2; exact Hn | apply C1; exact Hx].
+        * intros x Hx. apply C2. apply K1. exact Hx.
+  Qed.
+
+  Lemma Inv_initial root_ns : Inv data (initial_prefixes data root_ns).
+  Proof.
+    unfold initial_prefixes. destruct (py_in_str root_ns (dict_values data)) eqn:E.
+    - split; [constructor|]. split; [constructor|]. intros n p [].
+    - apply py_in_str_nIn in E. split; [repeat constructor; intros []|]. split; [repeat constructor; intros []|].
+      intros n p [H|[]]. injection H as <- <-. left. split; [reflexivity|]. right. left.
+      destruct (lookup_prefix data root_ns) as [q|] eqn:EL; [|reflexivity]. exfalso. apply E.
+      apply (lookup_prefix_iff _ _ _ _ NZ) in EL. eapply In_values. exact EL.
+  Qed.
+
+  Lemma lookup_global p n : In (p, n) global_namespaces -> lookup_prefix data n = Some p.
+  Proof. intros H. apply (lookup_prefix_iff _ _ _ _ NZ). apply (nz_global _ _ NZ). exact H. Qed.
+
+  Lemma global_untouched (g gn : str) pm n p : In (g, gn) global_namespaces -> gn <> [] -> g <> [] ->
+    (forall i, nsd_name i <> g ++ [COLON]) ->
+    Inv data pm -> In (n, p) pm -> (p = g ++ [COLON] <-> n = gn).
+  Proof.
+    intros HG Hgn Hg Hnsd [_ [_ I3]] Hin. pose proof (lookup_global _ _ HG) as LG. specialize (I3 _ _ Hin). split.
+    - intros ->. destruct I3 as [[H _]|[[_ [_ [i H]]]|[_ [q [_ [HL H]]]]]].
+      + apply app_eq_nil in H. destruct H as [_ H]. discriminate.
+      + symmetry in H. apply Hnsd in H. contradiction.
+      + apply app_inj_tail in H. destruct H as [<- _]. eapply lookup_prefix_inj; eassumption.
+    - intros ->. destruct I3 as [[_ [H|[H|H]]]|[[_ [[H|H] _]]|[_ [q [_ [HL H]]]]]]; congruence.
+  Qed.
+
+  Theorem collect_clauses root_ns nss :
+    (N.of_nat (length (dedup (root_ns :: nss))) < nsd_bound)%N ->
+    exists pm, collect_from data root_ns nss = Ok pm /\ Inv data pm /\ c13_clauses caller nss pm.
+  Proof.
+    intros HB. unfold collect_from.
+    assert (DD : forall l : list str, NoDup (dedup l) /\ forall x, In x (dedup l) <-> In x l).
+    { induction l as [|y r [IH1 IH2]]; cbn; [split; [constructor | reflexivity]|].
+      destruct (py_in_str y r) eqn:E.
+      - split; [exact IH1|]. intros x. rewrite IH2. apply py_in_str_In in E. split; [auto | intros [->|H]; assumption].
+      - apply py_in_str_nIn in E. split; [constructor; [rewrite IH2; exact E | exact IH1]|].
+        intros x. cbn. rewrite IH2. reflexivity. }
+    destruct (DD (root_ns :: nss)) as [NDU HU].
+    destruct (loop_ok (dedup (root_ns :: nss)) NDU HB nss (initial_prefixes data root_ns) (Inv_initial root_ns))
+      as [pm [E [HI [C1 _]]]].
+    { intros x Hx. apply HU. unfold initial_prefixes in Hx. destruct (py_in_str root_ns (dict_values data)); [destruct Hx|].
+      destruct Hx as [<-|[]]. left. reflexivity. }
+    { intros x Hx. apply HU. right. exact Hx. }
+    exists pm. split; [exact E|]. split; [exact HI|].
+    pose proof HI as [K1 [K2 K3]].
+    assert (EMPTY : forall n, In (n, []) pm -> In [] (dict_keys pm) -> n = []).
+    { intros n Hin HE. apply In_keys_ex in HE. destruct HE as [v HE].
+      assert (v = []).
+      { destruct (K3 _ _ HE) as [[H _]|[[H _]|[H _]]]; [exact H | contradiction | contradiction]. }
+      subst v. eapply values_inj; eassumption. }
+    constructor.
+    - intros n Hn. apply C1 in Hn. apply In_keys_ex in Hn. destruct Hn as [p Hp]. exists p. apply In_dict_get; assumption.
+    - exact K1.
+    - intros n n' p H1 H2. apply dict_get_In in H1. apply dict_get_In in H2. eapply values_inj; eassumption.
+    - intros HE. apply C1 in HE. split; [|split].
+      + pose proof HE as HE'. apply In_keys_ex in HE'. destruct HE' as [v Hv].
+        destruct (K3 _ _ Hv) as [[-> _]|[[H _]|[H _]]]; [|contradiction|contradiction]. apply In_dict_get; assumption.
+      + intros n Hn H. apply dict_get_In in H. apply Hn. apply EMPTY; assumption.
+      + intros H. apply declared_keys in H. destruct H as [[_ [n [Hn Hin]]]|[p' [H _]]].
+        * apply Hn. apply EMPTY; assumption.
+        * unfold XMLNS_ in H. cbn in H. discriminate.
+    - intros p n Hp Hn Hc Hin. apply C1 in Hin. apply In_keys_ex in Hin. destruct Hin as [v Hv].
+      pose proof (nz_caller _ _ NZ KD _ _ Hc) as HD. cbn [norm_prefix] in HD.
+      apply (lookup_prefix_iff _ _ _ _ NZ) in HD.
+      destruct (K3 _ _ Hv) as [[_ [H|[H|H]]]|[[_ [[H|H] _]]|[_ [q [_ [HL ->]]]]]]; try congruence.
+      rewrite HD in HL. injection HL as <-. apply In_dict_get; assumption.
+    - intros n p Hin. split.
+      + apply (global_untouched XML_ xml_ns pm n p);
+          [left; reflexivity | unfold xml_ns; discriminate | discriminate
+          | intros i H; unfold new_namespace_declaration_name in H; cbn in H; discriminate | exact HI | exact Hin].
+      + apply (global_untouched XMLNS_ xmlns_ns pm n p);
+          [right; left; reflexivity | unfold xmlns_ns; discriminate | discriminate
+          | intros i H; unfold new_namespace_declaration_name in H; cbn in H; discriminate | exact HI | exact Hin].
+    - split; intros H; apply declared_keys in H; destruct H as [[H _]|[p' [H Hn]]]; try discriminate.
+      + apply app_inv_head in H. apply app_inv_head in H. apply Hn. rewrite <- H. left. reflexivity.
+      + apply app_inv_head in H. apply app_inv_head in H. apply Hn. rewrite <- H. right. left. reflexivity.
+  Qed.
+End Clauses.
+
+(* ---- from namespace sequences to trees ------------------------------------------------------------ *)
+Lemma dedup_spec (l : list str) : NoDup (dedup l) /\ forall x, In x (dedup l) <-> In x l.
+Proof.
+  induction l as [|y r [IH1 IH2]]; cbn; [split; [constructor | reflexivity]|].
+  destruct (py_in_str y r) eqn:E.
+  - split; [exact IH1|]. intros x. rewrite IH2. apply py_in_str_In in E. split; [auto | intros [->|H]; assumption].
+  - apply py_in_str_nIn in E. split; [constructor; [rewrite IH2; exact E | exact IH1]|].
+    intros x. cbn. rewrite IH2. reflexivity.
+Qed.
+Lemma dedup_length_same_set (a b : list str) : (forall x, In x a <-> In x b) -> length (dedup a) = length (dedup b).
+Proof.
+  intros H. destruct (dedup_spec a) as [NA SA]. destruct (dedup_spec b) as [NB SB].
+  apply Nat.le_antisymm; apply NoDup_incl_length; try assumption; intros x Hx.
+  - apply SB. apply H. apply SA. exact Hx.
+  - apply SA. apply H. apply SB. exact Hx.
+Qed.
+
+Lemma order_ok_same_set bfs ord : order_ok bfs ord ->
+  forall x, In x (concat ord) <-> In x (flat_map (fun nn : node_nss => fst nn :: snd nn) bfs).
+Proof.
+  unfold order_ok. induction 1 as [|nn l bfs' ord' H _ IH]; cbn [concat flat_map]; [reflexivity|].
+  intros x. rewrite !in_app_iff, IH, H. reflexivity.
+Qed.
+Lemma default_order_ok bfs : order_ok bfs (default_order bfs).
+Proof. unfold order_ok, default_order. induction bfs; cbn; constructor; [reflexivity | assumption]. Qed.
+
+Lemma root_ns_in_tree_nss t : is_tag t = true -> In (root_ns_of t) (tree_nss t).
+Proof. destruct t; try discriminate. intros _. cbn. left. reflexivity. Qed.
+
+Lemma c13_clauses_same_set caller a b pm : (forall x, In x a <-> In x b) -> c13_clauses caller a pm -> c13_clauses caller b pm.
+Proof.
+  intros H [C1 C2 C3 C4 C5 C6 C7]. constructor; auto.
+  - intros n Hn. apply C1. apply H. exact Hn.
+  - intros Hn. apply C4. apply H. exact Hn.
+  - intros p n Hp Hn Hc Hin. apply C5; auto. apply H. exact Hin.
+Qed.
+
+Theorem collect_tree_clauses t caller ord :
+  is_tag t = true -> valid_caller caller -> no_generated_like caller = true ->
+  order_ok (bfs_of t) ord -> (N.of_nat (n_namespaces t) < 2 ^ 16)%N ->
+  exists data pm, normalize caller = Ok data /\ collect caller (root_ns_of t) ord = Ok pm
+                  /\ Inv data pm /\ c13_clauses caller (tree_nss t) pm.
+Proof.
+  intros HT [KD [data EN]] GUARD HO HB.
+  pose proof (normalize_ok _ _ EN) as NZ.
+  pose proof (order_ok_same_set _ _ HO) as SAME. fold (tree_nss t) in SAME.
+  destruct (collect_clauses caller data NZ GUARD KD (root_ns_of t) (concat ord)) as [pm [E [HI HC]]].
+  { replace (length (dedup (root_ns_of t :: concat ord))) with (n_namespaces t); [exact HB|].
+    unfold n_namespaces. apply dedup_length_same_set. intros x. cbn. rewrite SAME.
+    pose proof (root_ns_in_tree_nss t HT). split; [auto | intros [<-|H']; assumption]. }
+  exists data, pm. split; [exact EN|]. split; [unfold collect; rewrite EN; exact E|]. split; [exact HI|].
+  eapply c13_clauses_same_set; [exact SAME | exact HC].
+Qed.
+
+(* ---- the shape of prefixes, and names that cannot be taken for declarations ----------------------- *)
+Lemma split_colon (a b x y : str) : colon_free a -> colon_free b -> a ++ COLON :: x = b ++ COLON :: y -> a = b /\ x = y.
+Proof.
+  revert b. induction a as [|c a IH]; intros b Ha Hb H.
+  - destruct b as [|d b]; cbn in H; [injection H as H; split; [reflexivity | exact H]|].
+    injection H as H _. exfalso. apply Hb. left. symmetry. exact H.
+  - destruct b as [|d b]; cbn in H.
+    + injection H as H _. exfalso. apply Ha. left. exact H.
+    + injection H as H1 H2. subst d. destruct (IH b) as [-> ->]; [| |exact H2|split; reflexivity].
+      * intros Hin. apply Ha. right. exact Hin.
+      * intros Hin. apply Hb. right. exact Hin.
+Qed.
+Lemma py_prefix_app p s : py_prefix p s = true -> exists r, s = p ++ r.
+Proof.
+  revert s. induction p as [|a p IH]; intros s H; [exists s; reflexivity|].
+  destruct s as [|b s]; cbn in H; [discriminate|]. apply andb_prop in H. destruct H as [H1 H2].
+  apply N.eqb_eq in H1. subst. destruct (IH _ H2) as [r ->]. exists r. reflexivity.
+Qed.
+
+Lemma tables_colon_free :
+  forallb (fun kv => negb (existsb (N.eqb COLON) (fst kv))) (global_namespaces ++ common_namespaces) = true.
+Proof. vm_compute. reflexivity. Qed.
+
+Lemma prefix_shape caller data (pm : pmap) :
+  normalized caller data -> caller_prefixes_colon_free caller -> Inv data pm ->
+  forall n p, In (n, p) pm -> p = [] \/ exists q, p = q ++ [COLON] /\ q <> [] /\ colon_free q.
+Proof.
+  intros NZ CF [_ [_ I3]] n p Hin.
+  destruct (I3 _ _ Hin) as [[-> _]|[[_ [_ [i ->]]]|[_ [q [Hq [HL ->]]]]]]; [left; reflexivity | right | right].
+  - exists (NS_ ++ py_str_of_N i). split; [apply nsd_name_eq|]. split; [discriminate|].
+    intros H. apply in_app_or in H. destruct H as [H|H].
+    + cbn in H. intuition discriminate.
+    + unfold py_str_of_N in H. pose proof (uint_chars_digits (N.to_uint i)) as D. rewrite forallb_forall in D.
+      specialize (D _ H). discriminate.
+  - exists q. split; [reflexivity|]. split; [exact Hq|].
+    apply (lookup_prefix_iff _ _ _ _ NZ) in HL. apply (nz_origin _ _ NZ) in HL.
+    pose proof tables_colon_free as T. rewrite forallb_forall in T.
+    assert (TT : forall kv, In kv (global_namespaces ++ common_namespaces) -> colon_free (fst kv)).
+    { intros kv Hkv Hc. specialize (T _ Hkv). cbv beta in T.
+      assert (HE : existsb (N.eqb COLON) (fst kv) = true).
+      { apply existsb_exists. exists COLON. split; [exact Hc | apply N.eqb_refl]. }
+      apply negb_true_iff in T. exact (eq_true_false_abs _ HE T). }
+    destruct HL as [H|[[k [Hk ->]]|H]].
+    + apply (TT (q, n)). apply in_or_app. left. exact H.
+    + apply (CF _ _ Hk).
+    + apply (TT (q, n)). apply in_or_app. right. exact H.
+Qed.
+
+(* an attribute whose local name is a colon-free name other than "xmlns", in a namespace other than the
+   xmlns namespace, is never written under a key an XML reader takes for a declaration *)
+Lemma qname_not_decl caller data (pm : pmap) nss ans local :
+  normalized caller data -> caller_prefixes_colon_free caller -> Inv data pm -> c13_clauses caller nss pm ->
+  colon_free local -> local <> XMLNS_ -> ans <> xmlns_ns ->
+  is_decl_key (qname pm ans local) = false.
+Proof.
+  intros NZ CF HI HC Hl Hx Ha. unfold is_decl_key, qname, prefix_of.
+  assert (LOCAL : (str_eqb local XMLNS_ || py_startswith local (XMLNS_ ++ [COLON]))%bool = false).
+  { apply orb_false_iff. split; [apply str_eqb_false; exact Hx|].
+    destruct (py_startswith local (XMLNS_ ++ [COLON])) eqn:E; [|reflexivity]. exfalso.
+    apply py_prefix_app in E. destruct E as [r E]. apply Hl. rewrite E. rewrite <- app_assoc. apply in_or_app. right. left. reflexivity. }
+  destruct (dict_get ans pm) as [p|] eqn:EG; [|exact LOCAL].
+  apply dict_get_In in EG. destruct (prefix_shape _ _ _ NZ CF HI _ _ EG) as [->|[q [-> [Hq Hc]]]]; [exact LOCAL|].
+  rewrite <- app_assoc. cbn [app]. apply orb_false_iff. split.
+  - apply str_eqb_false. intros H. assert (HX : In COLON XMLNS_) by (rewrite <- H; apply in_or_app; right; left; reflexivity).
+    unfold XMLNS_, COLON in HX. cbn in HX. repeat (destruct HX as [HX|HX]; [discriminate HX|]). exact HX.
+  - destruct (py_startswith (q ++ COLON :: local) (XMLNS_ ++ [COLON])) eqn:E; [|reflexivity]. exfalso.
+    apply py_prefix_app in E. destruct E as [r E]. rewrite <- app_assoc in E. cbn [app] in E.
+    apply split_colon in E; [|exact Hc|unfold colon_free, XMLNS_, COLON; cbn; intros HX; repeat (destruct HX as [HX|HX]; [discriminate HX|]); exact HX]. destruct E as [-> _].
+    apply Ha. apply (c_xml _ _ _ HC _ _ EG). reflexivity.
+Qed.
